@@ -66,7 +66,7 @@ SubjectStep(st, fr) ==
                    TermFrames(on.q, fr.t, fr.v))
     [] fr.f = "sterm1" ->         \* filter(!p_is_closed) then p_error / p_complete
          LET c == PClosed(st, fr.n) IN
-         IF c = 2 THEN Fault(st, "reentry")
+         IF c = 2 THEN Busy(st)
          ELSE IF c = 1 THEN st ELSE Push(st, <<Call(fr.n, fr.t, fr.v)>>)
     [] fr.f = "ssub" ->           \* Subject::actual_subscribe(observer fr.x); not yet holding C
          Push(st, <<Acq(C), Fr("ssub2", s, "", U, fr.x), Rel(C)>>)
@@ -81,10 +81,10 @@ SubjectStep(st, fr) ==
     [] fr.f = "ptake" ->
          [st EXCEPT !.nodes[fr.n].f = FALSE, !.nodes[fr.n].q = <<>>]
     [] fr.f = "squery" ->         \* x: 1 len, 2 is_empty, 3 is_finished/is_closed ; result in ret
-         IF RHeld(on) THEN Fault(st, "reentry")
+         IF RHeld(on) THEN Busy(st)
          ELSE IF fr.x = 3 THEN [st EXCEPT !.ret = B(~on.f)]
          ELSE IF ~on.f THEN [st EXCEPT !.ret = IF fr.x = 1 THEN I(0) ELSE B(TRUE)]
-         ELSE IF RHeld(cn) THEN Fault(st, "reentry")
+         ELSE IF RHeld(cn) THEN Busy(st)
          ELSE IF fr.x = 1 THEN [st EXCEPT !.ret = I(Len(on.q) + Len(cn.q))]
          ELSE [st EXCEPT !.ret = B(on.q = <<>> /\ cn.q = <<>>)]
     [] fr.f = "sretain" ->        \* retain(): prune closed publishers of the live list
@@ -92,7 +92,7 @@ SubjectStep(st, fr) ==
     [] fr.f = "sretain2" ->
          IF ~on.f THEN st
          ELSE LET keep == RetainList(st, on.q) IN
-              IF keep = <<-1>> THEN Fault(st, "reentry")
+              IF keep = <<-1>> THEN Busy(st)
               ELSE [st EXCEPT !.nodes[O].q = keep]
     (* ---- BehaviorSubject ---- *)
     [] fr.f = "bnext" ->          \* store, then broadcast: two critical sections
@@ -104,10 +104,10 @@ SubjectStep(st, fr) ==
                     Fr("ssub", s, "", U, fr.x)>>)
     [] fr.f = "bsub2" -> Push(st, <<CallN(fr.x, st.nodes[VNode(st, s)].v)>>)
     [] fr.f = "bpeek" ->
-         IF RHeld(st.nodes[VNode(st, s)]) THEN Fault(st, "reentry")
+         IF RHeld(st.nodes[VNode(st, s)]) THEN Busy(st)
          ELSE [st EXCEPT !.ret = st.nodes[VNode(st, s)].v]
     [] fr.f = "bnextby" ->        \* next_by(f): peek, then next(f(value))
-         IF RHeld(st.nodes[VNode(st, s)]) THEN Fault(st, "reentry")
+         IF RHeld(st.nodes[VNode(st, s)]) THEN Busy(st)
          ELSE Push(st, <<Fr("bnext", s, "", MapF(fr.x, st.nodes[VNode(st, s)].v), 0)>>)
     [] OTHER -> Fault(st, "spec:unknown-subject-frame")
 
